@@ -810,20 +810,29 @@ impl ReCompiler {
                         max,
                         match_length,
                     )))
-                } else {
-                    // otherwise need to match with nothing
+                } else if min == 0 {
+                    // a zero-length term that may be skipped matches nothing
                     Ok(Operation::from(Nothing))
+                } else {
+                    // repeating a zero-length term is the term itself
+                    Ok(ret)
                 }
             } else {
                 Ok(Operation::from(Repeat::new(ret, min, max, true)))
             }
         } else if let Some(match_length) = ret.get_match_length() {
-            Ok(Operation::from(ReluctantFixed::new(
-                ret,
-                min,
-                max,
-                match_length,
-            )))
+            if match_length > 0 {
+                Ok(Operation::from(ReluctantFixed::new(
+                    ret,
+                    min,
+                    max,
+                    match_length,
+                )))
+            } else if min == 0 {
+                Ok(Operation::from(Nothing))
+            } else {
+                Ok(ret)
+            }
         } else {
             Ok(Operation::from(Repeat::new(ret, min, max, false)))
         }
